@@ -27,13 +27,14 @@ Definition qun (op : nat) (a : Q) : Q :=
   | _ => 0%Q
   end.
 
-(* reducers: 0 sum, 1 prod, 2 max, 3 min *)
+(* reducers: 0 sum, 1 prod, 2 max, 3 min, 4 mean *)
 Definition qred (op : nat) (l : list Q) : Q :=
   match op with
   | 0 => fold_right Qplus 0%Q l
   | 1 => fold_right Qmult 1%Q l
-  | 2 => match l with [] => 0%Q | x :: r => fold_right qmax x r end
-  | 3 => match l with [] => 0%Q | x :: r => fold_right qmin x r end
+  | 2 => match l with [] => 0%Q | x :: r => fold_left qmax r x end      (* ((x max r1) max r2) ... *)
+  | 3 => match l with [] => 0%Q | x :: r => fold_left qmin r x end
+  | 4 => Qdiv (fold_right Qplus 0%Q l) (inject_Z (Z.of_nat (length l)))      (* mean *)
   | _ => 0%Q
   end.
 
